@@ -28,7 +28,9 @@ res = {'worktree': wt, 'mutation': mut, 'demo_package_dir': pkgdir}
 notes = ''
 if os.path.exists(os.path.join(md, 'notes.md')):
     notes = open(os.path.join(md, 'notes.md')).read()
-race = ' -race' if re.search(r'-race', notes) else ''
+# the sub-agents were told to write the literal text "-race" when the demo needs the race detector; most notes mention
+# it only to say that it is NOT needed, so look for an affirmative statement
+race = ' -race' if re.search(r'(?i)(needs?|requires?|must be run with|run (it )?with|only fails (with|under))\s+(`?go test )?`?-race', notes) and not re.search(r'(?i)(neither|not|no|doesn.t|does not)\b[^.\n]{0,60}-race', notes) else ''
 res['demo_needs_race'] = bool(race)
 sh('git checkout -- . && git clean -fdq -e mutation1 -e mutation2 -e PROPERTY.json', wt)
 names = re.findall(r'^func (Test\w+)', demo, re.M)
